@@ -244,7 +244,7 @@ def check(prop, tier, seed):
     # 3. impl -> spec
     what = "ser" if prop == "C17" else "de"
     if tier == "quick":
-        shards, per, big = 4, (300 if prop == "C17" else 400), 1
+        shards, per, big = 4, (500 if prop == "C17" else 700), 1
     else:
         shards, per, big = 16, (1000 if prop == "C17" else 1500), 3
     stats = collections.Counter()
